@@ -168,7 +168,7 @@ func parseOpSpec(b *Block) (*OpSpec, error) {
 			sp.Otherwise = append(sp.Otherwise, [2]string{strings.TrimSpace(kv[0]), strings.TrimSpace(strings.TrimPrefix(strings.TrimSpace(kv[1]), "returns "))})
 		case "constructor":
 			sp.Ctor = strings.TrimSpace(c.Text)
-		case "props", "note", "teardown", "mode", "userfn", "inline":
+		case "props", "note", "teardown", "mode", "userfn", "inline", "scope":
 		default:
 			return nil, fmt.Errorf("%s:%d: unknown operator clause %q", shortFile(c.File), c.Line, c.Kind)
 		}
